@@ -5,9 +5,9 @@ import HexProofs.Manager.Trim
 /-
 From the shift invariance of one reading to `Indicator.append` on a trimmed list: `calculate()`
 on `finished candles ++ new raw candles` with the first `d` candles popped computes the same
-readings as on the untrimmed list, provided (a) two finished candles survive the pop (then
-`_find_calc_index` resumes at the first new candle on both sides and every new candle has its
-predecessor), and (b) the kind's reachable-state condition holds (EMA / RMA seeded).
+readings as on the untrimmed list, provided (a) ONE finished candle survives the pop (then
+`_find_calc_index` – whose scan inspects index 0 since the repair – resumes at the first new candle
+on both sides and every new candle has its predecessor), and (b) the kind's reachable-state condition holds (EMA / RMA seeded).
 -/
 namespace Hex
 set_option linter.unusedSectionVars false
@@ -120,20 +120,18 @@ theorem leafLoop_drop (ind : Ind F) (S : ShiftOK ind) (d : Nat) :
       rw [show k + 1 - d = k - d + 1 by omega] at this
       exact this
 
-/-- **`calculate()` commutes with popping `d` leading candles** when two finished candles
-survive: `_find_calc_index` resumes at the first raw candle on both sides -/
+/-- **`calculate()` commutes with popping `d` leading candles** when ONE finished candle survives:
+`_find_calc_index` (whose backward scan inspects every index down to 0) resumes at the first raw
+candle on both sides, and every raw candle has its predecessor -/
 theorem leafCalc_drop (ind : Ind F) (S : ShiftOK ind) (a new : List (Candle F)) (d : Nat)
     (hfin : ∀ c ∈ a, hasKey ind.name c = true) (hnew : ∀ c ∈ new, Plain c)
-    (hkeep : d + 2 ≤ a.length) (hP : S.P (a ++ new) a.length) :
+    (hkeep : d + 1 ≤ a.length) (hP : S.P (a ++ new) a.length) :
     leafCalc ind ((a ++ new).drop d) = (leafCalc ind (a ++ new)).map (·.drop d) := by
   have hfresh : ∀ c ∈ new, hasKey ind.name c = false := fun c hc => hasKey_plain ind.name c (hnew c hc)
   have hdrop : (a ++ new).drop d = a.drop d ++ new := List.drop_append_of_le_length (by omega)
   have hfinD : ∀ c ∈ a.drop d, hasKey ind.name c = true := fun c hc => hfin c (List.mem_of_mem_drop hc)
   have hidxA := findCalcIndex_split ind.name a new hfin hfresh
   have hidxB := findCalcIndex_split ind.name (a.drop d) new hfinD hfresh
-  have hlA : ¬ a.length ≤ 1 := by omega
-  have hlB : ¬ (a.drop d).length ≤ 1 := by rw [List.length_drop]; omega
-  simp only [hlA, hlB, if_false] at hidxA hidxB
   unfold leafCalc
   rw [hdrop, hidxA, hidxB, ← hdrop]
   have e1 : ((a ++ new).drop d).length - (a.drop d).length = new.length := by
@@ -145,68 +143,19 @@ theorem leafCalc_drop (ind : Ind F) (S : ShiftOK ind) (a new : List (Candle F)) 
   rw [List.getElem?_append_right hj] at hc
   exact hnew c (List.mem_of_getElem? hc)
 
-/-- the same when exactly ONE finished candle survives, provided it is skipped by the loop's
-`indicators.get(name) is not None` test (a top-level indicator with a non-`None` reading):
-`_find_calc_index` then restarts from 0 on the popped list, candle 0 is skipped, and the loop
-continues at the first raw candle.  (Without that proviso candle 0 would be recomputed WITHOUT its
-predecessor: the popped run can differ.) -/
-theorem leafCalc_drop_one (ind : Ind F) (S : ShiftOK ind) (a new : List (Candle F)) (d : Nat) (z : Candle F)
-    (hfin : ∀ c ∈ a, hasKey ind.name c = true) (hnew : ∀ c ∈ new, Plain c)
-    (hkeep : d + 1 = a.length) (hd : 1 ≤ d) (hz : a.getLast? = some z) (hpres : present ind.name z = true)
-    (hP : S.P (a ++ new) a.length) :
-    leafCalc ind ((a ++ new).drop d) = (leafCalc ind (a ++ new)).map (·.drop d) := by
-  have hfresh : ∀ c ∈ new, hasKey ind.name c = false := fun c hc => hasKey_plain ind.name c (hnew c hc)
-  have hdrop : (a ++ new).drop d = a.drop d ++ new := List.drop_append_of_le_length (by omega)
-  have hsplit : a = a.dropLast ++ [z] := eq_dropLast_append_of_getLast? a z hz
-  have hdl : a.dropLast.length = d := by rw [List.length_dropLast]; omega
-  have hz1 : a.drop d = [z] := by
-    conv_lhs => rw [hsplit]
-    rw [List.drop_append_of_le_length (by omega), List.drop_of_length_le (by omega)]; rfl
-  have hidxA := findCalcIndex_split ind.name a new hfin hfresh
-  have hlA : ¬ a.length ≤ 1 := by omega
-  simp only [hlA, if_false] at hidxA
-  have hidxB : findCalcIndex ind.name (z :: new) = 0 := findCalcIndex_one ind.name z new hfresh
-  have hloop := leafLoop_drop ind S d new.length (a ++ new) a.length (by omega) (by simp)
-    (by
-      intro j c hj hc
-      rw [List.getElem?_append_right hj] at hc
-      exact hnew c (List.mem_of_getElem? hc)) hP
-  rw [hdrop, hz1] at hloop
-  rw [show a.length - d = 1 by omega] at hloop
-  unfold leafCalc
-  rw [hdrop, hz1, hidxA]
-  simp only [List.singleton_append] at hloop ⊢
-  rw [hidxB]
-  have e2 : (a ++ new).length - a.length = new.length := by simp
-  rw [e2, show (z :: new).length - 0 = new.length + 1 by simp, leafLoop]
-  have : pyIndex (z :: new) ((0 : Nat) : Int) = .ok z := pyIndex_nat _ 0 z rfl
-  rw [this]
-  simp only [bind, Except.bind, hpres, if_true, pure, Except.pure]
-  exact hloop
-
-/-- what must survive the pop for `calculate()` to resume correctly: two finished candles, or one
-that the loop skips -/
-def KeepOK (name : String) (a : List (Candle F)) (d : Nat) : Prop :=
-  d = 0 ∨ d + 2 ≤ a.length ∨ (d + 1 = a.length ∧ ∀ z, a.getLast? = some z → present name z = true)
+/-- what must survive the pop for `calculate()` to compute the same readings: nothing was popped,
+or ONE finished candle (the predecessor of the first new candle) is retained -/
+def KeepOK (a : List (Candle F)) (d : Nat) : Prop := d = 0 ∨ d + 1 ≤ a.length
 
 theorem leafCalc_drop_keep (ind : Ind F) (S : ShiftOK ind) (a new : List (Candle F)) (d : Nat)
     (hfin : ∀ c ∈ a, hasKey ind.name c = true) (hnew : ∀ c ∈ new, Plain c)
-    (hkeep : KeepOK ind.name a d) (hP : S.P (a ++ new) a.length) :
+    (hkeep : KeepOK a d) (hP : S.P (a ++ new) a.length) :
     leafCalc ind ((a ++ new).drop d) = (leafCalc ind (a ++ new)).map (·.drop d) := by
-  rcases hkeep with h0 | h2 | ⟨h1, hz⟩
+  rcases hkeep with h0 | h1
   · subst h0
     simp only [List.drop_zero]
     cases leafCalc ind (a ++ new) <;> simp [Except.map]
-  · exact leafCalc_drop ind S a new d hfin hnew h2 hP
-  · by_cases hd : d = 0
-    · subst hd
-      simp only [List.drop_zero]
-      cases leafCalc ind (a ++ new) <;> simp [Except.map]
-    · obtain ⟨z, hzz⟩ : ∃ z, a.getLast? = some z := by
-        cases hq : a.getLast? with
-        | none => rw [List.getLast?_eq_none_iff] at hq; subst hq; simp at h1
-        | some z => exact ⟨z, rfl⟩
-      exact leafCalc_drop_one ind S a new d z hfin hnew h1 (by omega) hzz (hz z hzz) hP
+  · exact leafCalc_drop ind S a new d hfin hnew h1 hP
 
 /-! ### the manager's trim pops leading candles -/
 
@@ -246,14 +195,13 @@ theorem tasks_lifeOnly (life : Int) (cs : List (Candle F)) :
 
 /-- **One `append` on a lifespan-trimmed indicator.**  `a` is the finished candle list of the
 untrimmed twin, the trimmed indicator holds `a.drop d₀`.  If, after `append new`, the trim leaves
-at least two of the already finished candles – or one that the loop skips – (`r` = the trimmed
-list, `KeepOK`), and the kind's state condition holds, then the trimmed indicator ends with exactly the candles of the untrimmed twin
+at least ONE of the already finished candles (`r` = the trimmed list, `KeepOK`), and the kind's state condition holds, then the trimmed indicator ends with exactly the candles of the untrimmed twin
 minus the popped ones – same readings, same exception if a reading raises. -/
 theorem append_trimmed (ind : Ind F) (hl : IsLeaf ind) (S : ShiftOK ind) (life : Int)
     (a new r : List (Candle F)) (d₀ : Nat) (actA actB : Int) (hd₀ : d₀ ≤ a.length)
     (hfin : ∀ c ∈ a, hasKey ind.name c = true) (hnew : ∀ c ∈ new, Plain c) (hne : new ≠ [])
     (htrim : trimCandles (some life) (a.drop d₀ ++ new) = .ok r)
-    (hkeep : KeepOK ind.name a (a.length + new.length - r.length)) (hP : S.P (a ++ new) a.length) :
+    (hkeep : KeepOK a (a.length + new.length - r.length)) (hP : S.P (a ++ new) a.length) :
     candlesOf (IndState.append ({ tree := ind, mgr := { cfg := cfgLifeOnly life, candles := a.drop d₀ }, active := actB } : IndState F) new)
       = (candlesOf (IndState.append ({ tree := ind, mgr := { cfg := {}, candles := a }, active := actA } : IndState F)
           new)).map (·.drop (a.length + new.length - r.length)) := by
@@ -286,9 +234,9 @@ namespace Hex
 set_option linter.unusedSectionVars false
 variable {F : Type} [PyF F]
 
-/-- two retained finished candles are enough -/
-theorem keepOK_of_two (name : String) (a new r : List (Candle F)) (h : new.length + 2 ≤ r.length)
-    (hr : r.length ≤ a.length + new.length) : KeepOK name a (a.length + new.length - r.length) :=
-  Or.inr (Or.inl (by omega))
+/-- one retained finished candle is enough -/
+theorem keepOK_of_one (a new r : List (Candle F)) (h : new.length + 1 ≤ r.length)
+    (hr : r.length ≤ a.length + new.length) : KeepOK a (a.length + new.length - r.length) :=
+  Or.inr (by omega)
 
 end Hex
